@@ -1,6 +1,8 @@
 package states
 
 import (
+	"math/big"
+
 	"github.com/laizy/bigint"
 	"github.com/ontio/ontology/common"
 )
@@ -9,6 +11,10 @@ import (
 func Harness_C21_balance_item() {
 	v := nondetBig("bal", param("bits"))
 	assume(v.Sign() >= 0)
+	// precondition of the type: the whole-token part fits a uint64 (balances never exceed the token supply;
+	// MustToStorageItem panics by design beyond that)
+	limit := new(big.Int).Mul(new(big.Int).Lsh(big.NewInt(1), 64), big.NewInt(ScaleFactor))
+	assume(bigLt(v, limit))
 	bal := NativeTokenBalance{Balance: bigint.New(v)}
 	item := bal.MustToStorageItem()
 	raw := item.ToArray()
